@@ -34,7 +34,9 @@ META = dict(
                'instances with hubs, self and parallel associations, type-'
                'incompatible ends, 1-2 namespaces with cross-namespace '
                'associations; NULL ends through add_cimobjects and dangling '
-               'ends through DeleteInstance in a second phase). Every node is '
+               'ends through DeleteInstance, or ModifyInstance of references '
+               'and repeated CreateInstance of stored association instances '
+               '("rewire") in a second phase). Every node is '
                'a source for ~8 filter tuples drawn from existing, re-cased, '
                'super/sub, unrelated and non-existing names; class-level '
                'queries for every class. Held-on-K-executions evidence.',
